@@ -33,7 +33,7 @@ PLAN = {
     "C07": [("prop_case", 8000, 2048)],
     "C08": [("prop_case", 12000, 2048)],
     "C09": [("prop_case", 25000, 2048)],
-    "C10": [("prop_case", 12000, 2048), ("target_route", 400000, 600)],
+    "C10": [("prop_case", 4000, 2048), ("target_route", 400000, 600)],
     "C13": [("target_route", 400000, 600)],
     "C14": [("prop_case", 10000, 2048)],
     "C15": [("prop_case", 2400, 2048)],
@@ -46,7 +46,7 @@ PLAN = {
 
 # new inputs per short-lived prop_case process (loggers with a flush interval leave a flusher thread
 # behind that wakes up every interval for the rest of the process: C15 and C10 build many of them)
-PER_ROUND = {"C15": 60, "C10": 120, "C01": 200, "C06": 200, "C07": 200}
+PER_ROUND = {"C15": 60, "C10": 40, "C01": 200, "C06": 200, "C07": 200}
 
 
 def build():
